@@ -1,0 +1,28 @@
+//go:build verif
+
+package p2p
+
+import (
+	pubsub "github.com/libp2p/go-libp2p-pubsub"
+)
+
+// VerifNewMessaging returns a P2PMessaging that only carries the handler and
+// validator registries (no libp2p node). Verification harnesses register the
+// real message handlers on it and drive validators and handlers directly.
+func VerifNewMessaging() *P2PMessaging {
+	return &P2PMessaging{
+		gossipTopicNames:  make(map[string]struct{}),
+		handlerRegistry:   make(HandlerRegistry),
+		validatorRegistry: make(ValidatorRegistry),
+	}
+}
+
+// VerifCombinedValidator returns the validator libp2p would run for the topic.
+func (m *P2PMessaging) VerifCombinedValidator(topic string) pubsub.ValidatorEx {
+	return m.validatorRegistry.GetCombinedValidator(topic)
+}
+
+// VerifTopics returns the subscribed topics.
+func (m *P2PMessaging) VerifTopics() []string {
+	return m.topics()
+}
